@@ -13,7 +13,7 @@ WITHOUT_FAIL=$(grep -c 'test result: FAILED' "$OUT/confirm.without.log")
 FAILING=$(grep -E "^error: test failed" "$OUT/confirm.with.log" | tr '\n' ';')
 RES=$(/verif/tools/try_mutant.sh "$DST/patch.diff" "$@" 2>&1)
 echo "$RES"
-python3 - "${ID%b}" "$NAME" "$NEEDS" "$WITH_OK" "$WITH_FAIL" "$WITHOUT_FAIL" "$FAILING" "$RES" "$*" <<'PY'
+python3 - "${ID%[a-z]}" "$NAME" "$NEEDS" "$WITH_OK" "$WITH_FAIL" "$WITHOUT_FAIL" "$FAILING" "$RES" "$*" <<'PY'
 import sys, json, re
 ID, name, needs, wok, wfail, wofail, failing, res, checks = sys.argv[1:10]
 detected = {}
